@@ -56,7 +56,7 @@ def comment_tokens(text):
     return [t.string for t in tokens(text) if t.type == tokenize.COMMENT]
 
 
-_ID = re.compile(r'\bid=\d+')
+_ID = re.compile(r'\bid=-?\d+')
 _AT = re.compile(r' at 0x[0-9a-fA-F]+')
 
 
